@@ -1374,6 +1374,11 @@ where
         crate::verif::MockClock::new(mock)
     }
 
+    /// Number of ops currently queued in the (read, write) channels. Lock free.
+    pub(crate) fn verif_queue_lens(&self) -> (usize, usize) {
+        (self.read_op_ch.len(), self.write_op_ch.len())
+    }
+
     /// The popularity estimate admission would read for `key` right now.
     pub(crate) fn verif_estimate<Q>(&self, key: &Q) -> u8
     where
